@@ -20,10 +20,22 @@
       [chunks16 bs]    = map (fun k => firstn 16 (skipn (16 * k) bs)) (seq 0 (length bs / 16))
       [frame_event b]  = EvFrame [f] f iserr ef  where receive16 b = Some (f, iserr, ef) (Wire.v, C06)
       [no_stall 0 chunks] = never more than 100 empty reads in a row.
-    Socketcan/Transmitter.v: [transmit has_deadline answers f] = (events in order, result). *)
+    Socketcan/Transmitter.v: [transmit has_deadline answers f] = (events in order, result).
+    Socketcan/Process.v: several receivers / transmitters in one process.
+      [machine_run step s ops]  = one instance of a machine [step : state -> op -> state * list obs]
+      [process_run step m ops]  = instances [m 0, m 1, ..] driven by operations (i, op) tagged with the
+                                  instance they address; observations tagged (i, obs) the same way
+      [addressed_to i l]        = map snd (filter (fun x => fst x =? i) l): the part of l tagged i
+      receiver operations [ONew icpt rs] (NewReceiver on a connection answering rs, with/without an
+        interceptor), [OReceive], [OClose]; observations [ObEvent event], [ObClosed]; [rstep];
+        [receivers_run ops] = process_run rstep (fun _ => RNone) ops;
+        [see icpt ev] = ev if icpt, else ev without its interceptor calls;
+        [receives calls] = number of OReceive in calls; [is_call o] = o is not an ONew
+      transmitter operations [TNew icpt], [TCall dl answers frame]; [tstep]; [transmitters_run]. *)
 From Coq Require Import ZArith List Bool.
 From CanVerif Require Import Socketcan.Wire Socketcan.WireSpec Socketcan.Receiver Socketcan.ReceiverSpec
-  Socketcan.ReceiverProofs Socketcan.Transmitter Socketcan.TransmitterProofs.
+  Socketcan.ReceiverProofs Socketcan.Transmitter Socketcan.TransmitterProofs
+  Socketcan.Process Socketcan.ProcessProofs.
 Import ListNotations.
 Open Scope Z_scope.
 
@@ -165,6 +177,46 @@ Theorem C07_transmit_deadline_failed : forall ans f e, ans_deadline ans = Some e
 Proof. exact transmit_deadline_failed. Qed.
 Print Assumptions C07_transmit_deadline_failed.
 
+(** SEVERAL RECEIVERS IN ONE PROCESS, operations on them interleaved in any way (creation of further
+    receivers, Receive, Close - also twice, also while frames are buffered): what receiver i shows
+    is what the single-receiver model shows on the sub-sequence of operations addressed to i. This
+    is what justifies comparing every receiver of a process with the single-receiver theorems above.
+    (In the model receivers are values and cannot share anything; that the Go objects share
+    nothing is observed by the correspondence run, M lines.) *)
+Theorem C07_receivers_independent : forall (ops : list (nat * rop)) (i : nat),
+  addressed_to i (receivers_run ops) = machine_run rstate rop robs rstep RNone (addressed_to i ops).
+Proof. exact receivers_independent. Qed.
+Print Assumptions C07_receivers_independent.
+
+(** so neither the operations addressed to other receivers nor the interleaving matter *)
+Theorem C07_interleaving_irrelevant : forall (ops1 ops2 : list (nat * rop)) (i : nat),
+  addressed_to i ops1 = addressed_to i ops2 ->
+  addressed_to i (receivers_run ops1) = addressed_to i (receivers_run ops2).
+Proof. exact receivers_interleaving_irrelevant. Qed.
+Print Assumptions C07_interleaving_irrelevant.
+
+(** receiver i created once on a connection answering rs, then Receive / Close calls: its events are
+    those of C07_every_read_list for ITS OWN connection - floor(n/16) frames of its own stream, each
+    with exactly one call of ITS interceptor (none if it was created without one), then the stops *)
+Theorem C07_receiver_in_process : forall ops i icpt rs calls,
+  addressed_to i ops = ONew icpt rs :: calls -> forallb is_call calls = true ->
+  events_of (addressed_to i (receivers_run ops)) =
+    map (see icpt)
+      (let (bs, e) := delivered 0 rs in
+       let evs := map frame_event (chunks16 bs) in
+       firstn (receives calls) evs ++ repeat (EvStop [] zero_frame e) (receives calls - length evs)).
+Proof. exact receiver_in_process_spec. Qed.
+Print Assumptions C07_receiver_in_process.
+
+(** the same for transmitters: transmitter i created once (with / without an interceptor) and used
+    for [calls], interleaved in any way with other transmitters, does exactly [transmit_all calls],
+    with the interceptor events iff IT has an interceptor *)
+Theorem C07_transmitter_in_process : forall ops i icpt calls,
+  addressed_to i ops = TNew icpt :: map (fun c => match c with (dl, ans, f) => TCall dl ans f end) calls ->
+  addressed_to i (transmitters_run ops) = map (see_tx icpt) (transmit_all calls).
+Proof. exact transmitter_in_process. Qed.
+Print Assumptions C07_transmitter_in_process.
+
 (** non-vacuity: 37 bytes (2 frames + 5 trailing) served as 1 + 0 + 20 + 16 bytes, and the same
     with an error arriving together with the last 16 bytes *)
 Example C07_nonvacuous :
@@ -182,3 +234,22 @@ Example C07_nonvacuous :
             (mkFrame 0x201 5 [9; 10; 11; 12; 13; 14; 15; 16] false false) false
             (mkErrFrame 0x04030201 9 10 11 12 13 [14; 15; 16]).
 Proof. vm_compute. repeat split. Qed.
+
+(** non-vacuity of the process theorems: receiver 0 (interceptor, 2 frames in ONE read) is closed twice
+    while a frame is still buffered, receivers 1 (no interceptor) and 2 are created afterwards and
+    read interleaved with the draining of receiver 0: each shows its own stream *)
+Example C07_process_nonvacuous :
+  let s0 := map Z.of_nat (seq 1 32) in
+  let s1 := map Z.of_nat (seq 101 16) in
+  let s2 := map Z.of_nat (seq 201 16) in
+  let ops := [(0, ONew true [RData s0]); (0, OReceive); (0, OClose); (0, OClose);
+              (1, ONew false [RData (firstn 5 s1); RData (skipn 5 s1)]); (2, ONew true [RData s2]);
+              (1, OReceive); (2, OReceive); (0, OReceive); (2, OReceive); (0, OReceive); (1, OReceive)]%nat in
+  receivers_run ops =
+    [(0, ObEvent (frame_event (firstn 16 s0))); (0, ObClosed); (0, ObClosed);
+     (1, ObEvent (strip_icpt (frame_event s1))); (2, ObEvent (frame_event s2));
+     (0, ObEvent (frame_event (skipn 16 s0))); (2, ObEvent (EvStop [] zero_frame None));
+     (0, ObEvent (EvStop [] zero_frame None)); (1, ObEvent (EvStop [] zero_frame None))]%nat /\
+  addressed_to 0 ops = [ONew true [RData s0]; OReceive; OClose; OClose; OReceive; OReceive] /\
+  strip_icpt (frame_event s1) <> frame_event s1.
+Proof. vm_compute. repeat split. discriminate. Qed.
